@@ -22,6 +22,7 @@ def generate(rng, tier):
     if os.environ.get("EB_CORRUPT", "1") != "0":
         streams = ebcases.seed_streams(rng, 10 if tier == "quick" else 40)
         cs += ebcases.corrupt_cases(rng, streams, per_stream=30 if tier == "quick" else 150)
+        cs += ebcases.synth_connectivity_cases(rng, n=400 if tier == "quick" else 20000)
     return cs
 
 
